@@ -10,8 +10,8 @@
 
     Executable transliterations, no proofs in this file.  Integers are [Z]; the places where the
     Go code converts or can wrap in a way that changes the control flow are written explicitly
-    ([u64] of a negative relative time in generateTimelineEntries, [i64] of cycle*timescale and of
-    the parsed duration).  Panics are [Panic "<function>: <kind>"]. *)
+    ([u64] of a negative relative time in generateTimelineEntries, [i64] of the products with the
+    configured cycle in calcStatusCode, of the parsed duration and of the sums in StateAt).  Panics are [Panic "<function>: <kind>"]. *)
 From Verif Require Import GoSem Timeline.
 From Coq Require Import Ascii.
 
@@ -169,10 +169,10 @@ Fixpoint statusLoop (r : rep) (loopMS : Z) (c : tcfg) (repID : string) (startTim
     let cycleInTimescale := i64 (cycle * repTs) in
     if cycleInTimescale =? 0 then Panic "calcStatusCode: integer divide by zero" else
     let nrWraps := Z.quot startTime cycleInTimescale in
-    let wrapStartS := nrWraps * cycle in
-    let firstNr0 := if nrWraps >? 0 then findLastSegNr r loopMS c (wrapStartS * 1000) + 1 else 0 in
+    let wrapStartS := i64 (nrWraps * cycle) in
+    let firstNr0 := if nrWraps >? 0 then findLastSegNr r loopMS c (i64 (wrapStartS * 1000)) + 1 else 0 in
     do segTime <- findSegStartTime r loopMS c firstNr0;
-    let firstNr := if segTime <? wrapStartS * repTs then firstNr0 + 1 else firstNr0 in
+    let firstNr := if segTime <? i64 (wrapStartS * repTs) then firstNr0 + 1 else firstNr0 in
     let idx := nr - firstNr in
     if idx <? 0 then Err "segment is before first segment"
     else if idx =? sc_rsq ss then Ok (sc_code ss)
